@@ -602,7 +602,7 @@ def perturb(split, rng, other=None):
 
 def extra_module(rng, prefix="x"):
     """An unrelated module nobody imports: a few functions (some pub), constants
-    and a struct, with names disjoint from the main program's."""
+    and structures, with names disjoint from the main program's."""
     P = generate(rng, prefix=prefix, n_funcs=rng.randint(2, 5), with_main=False)
     pubs = {it.name for it in P.items if rng.random() < 0.3}
     stack = list(pubs)
@@ -614,6 +614,41 @@ def extra_module(rng, prefix="x"):
         closed.add(x)
         stack.extend(P.by_name[x].xdeps)
     return "\n".join(it.text(it.name in closed) for it in P.items)
+
+
+def twin_module(prog, rng):
+    """The "evil twin": a module nobody imports that declares, all private, the
+    very same names as the program (constants, tables, structures, functions)
+    with different contents: table elements and i32 constants changed, every
+    structure given another layout. Lengths (usize constants) are kept, so the
+    twin's tables have the same *type* as the originals."""
+    out = []
+    for it in prog.items:
+        if it.name in ("main", "abs"):
+            continue
+        body = it.body
+        if it.kind == "const":
+            if body.startswith("const %s: [" % it.name):
+                body = re.sub(r"\[([0-9, ]+)\];", lambda m: "[%s];" % ", ".join(
+                    str((int(x) + 1 + i) % 10) for i, x in enumerate(m.group(1).split(", "))), body)
+            elif ": i32 = " in body:
+                body = re.sub(r"(= |\+ )(\d+);", lambda m: "%s%d;" % (m.group(1), int(m.group(2)) + 1), body)
+        elif it.kind == "struct":
+            body = body.replace("{\n", "{\n\tzz: u8,\n", 1)
+        elif it.kind == "fn":
+            body = re.sub(r"%% %d" % MOD, "%% %d" % (MOD - 1), body)
+        out.append(body)
+    # keep the twin's globals alive: a pub (externally visible, never called) function reads them
+    terms = []
+    for it in prog.items:
+        if it.kind == "const" and it.body.startswith("const %s: [" % it.name):
+            terms.append("%s[i]" % it.name)     # run-time index: goes through the global
+        elif it.kind == "const" and ": i32" in it.body:
+            terms.append(it.name)
+    if terms:
+        out.append("pub fn zz_twin_probe(i: usize) -> i32\n{\n\treturn: %s\n}\n" % " + ".join(terms))
+    rng.shuffle(out)
+    return "\n".join(out)
 
 
 def negative_variants(split, rng, limit=None):
